@@ -372,10 +372,24 @@ def add_twin_enums(doc: Dict[str, Any], rnd: random.Random) -> str:
     return "add_twin_enums"
 
 
+def add_long_named_request(doc: Dict[str, Any], rnd: random.Random) -> str:
+    """Very long (but legal) type and method names: generated file names / identifiers get long."""
+    tag = _fresh(rnd, "")
+    n = rnd.choice([90, 120, 139, 150])
+    tn = ("SimVeryLongRequestNameForPathLengthHandling" * 5)[: n - len(tag)] + tag
+    structs = [s["name"] for s in doc["structures"]]
+    if not structs:
+        add_structure(doc, rnd)
+        structs = [s["name"] for s in doc["structures"]]
+    doc["requests"].append({"method": "sim/" + tn[:60] + "/" + tag, "typeName": tn + "Request", "messageDirection": "clientToServer",
+                            "params": _r(rnd.choice(structs)), "result": _b("null")})
+    return f"add_long_named_request:{n}"
+
+
 SAFE_EDITS: List[Callable[[Dict[str, Any], random.Random], str]] = [
     add_structure, add_enumeration, add_enum_member, add_request, add_notification, drop_message, add_property,
     add_rich_structure, add_rich_structure, add_rich_structure, add_alias, add_rich_request, add_bare_notification, add_enum_and_user,
-    add_inheritance_conflict, add_inheritance_conflict, add_twin_literals, add_twin_enums,
+    add_inheritance_conflict, add_inheritance_conflict, add_twin_literals, add_twin_enums, add_long_named_request,
 ]
 
 
